@@ -843,7 +843,17 @@ static void runLifecycle(const std::vector<Entry> &reg, const json &job, vt::Tra
         else if (a == "Clear")
             planner->clear();
         else if (a == "ClearQuery")
-            planner->clearQuery();
+        {
+            // the roadmap planners (PRM, LazyPRM, SPARS families) also clear the query when a definition is bound:
+            // "via": "rebind" spells ClearQuery as setProblemDefinition(the definition that is bound already)
+            if (op.value("via", std::string()) == "rebind" && !bound.empty() && pdefs.count(bound))
+            {
+                planner->setProblemDefinition(pdefs[bound]);
+                ev["via"] = "rebind";
+            }
+            else
+                planner->clearQuery();
+        }
         else if (a == "Setup")
             planner->setup();
         else if (a == "Solve")
@@ -1112,6 +1122,29 @@ static void runCost(const std::vector<Entry> &reg, const json &job, vt::Trace &t
             sols.push_back(f);
         }
         ev["sols"] = sols;
+        // the planner's own progress property "best cost" (the incumbent it steers by), where it publishes one
+        ev["hasBestProp"] = false;
+        ev["bestProp"] = 0;
+        if (!(e->flags & F_MT))   // (the multi-threaded planners update their incumbent from callbacks of their
+        {                         //  instances while those report on their own: no single moment to compare at)
+            const auto &pp = p->getPlannerProgressProperties();
+            auto it = pp.find("best cost REAL");
+            if (it != pp.end() && thrown.empty())
+            {
+                try
+                {
+                    double v = std::stod(it->second());
+                    if (std::isfinite(v))
+                    {
+                        ev["hasBestProp"] = true;
+                        ev["bestProp"] = fx(v);
+                    }
+                }
+                catch (const std::exception &)
+                {
+                }
+            }
+        }
         tr.emit(ev);
     }
 }
